@@ -212,7 +212,7 @@ def make_case_call(rng):
     api = rng.choice(T.JOINS)
     if api == 'edit_distance_join':
         call = c03.nb_call(rng)
-        ts = sorted(rng.sample([0, 1, 2, 3, 4], 2))
+        ts = sorted(rng.sample([0, 1, 2, 3, 4, 1.5, 2.5, 0.5, 3.25], 2))
         t_lax, t_strict = ts[1], ts[0]
     else:
         call = gen.random_join_call(rng, api=api, max_rows=10)
